@@ -78,13 +78,6 @@ theorem chunks_sub {α : Type} (g : Nat) (l : List α) : ∀ grp ∈ chunks g l,
 
 /-! ### matching of one pattern by kind -/
 
-/-- what the regex of a group of kind `k` demands of one of its alternatives -/
-def kindMatches (k : Kind) (p : CPat) (name : List Char) : Bool :=
-  match k with
-  | .full => bodyMatch p name
-  | .base => bodyMatch p (basename name)
-  | .ext => (dotSuffixes (basename name)).any (bodyMatch p)
-
 theorem cpMatches_eq (p : CPat) (name : List Char) : cpMatches p name = kindMatches p.kind p name := by
   unfold cpMatches kindMatches; cases p.kind <;> rfl
 
